@@ -28,6 +28,16 @@ def configs(tier):
 
 
 def run(tier, workers=None):
+    def seeds(cfg):
+        if isinstance(cfg, e1common.StoreCfg):
+            return [[("put", "a.ics", "X", None), ("put", "b.ics", "Z", None), ("delete", "a.ics", None)]]
+        hs = [[("mkcalendar", "c2"), ("put", "c2", "a.ics", "X")], [("put", "cal", "a.ics", "X"), ("put", "cal", "b.ics", "Z"), ("delete", "cal", "a.ics")],
+              [("put", "cal", "a.ics", "X"), ("restart",), ("put", "cal", "a.ics", "X2")]]
+        if tier == "quick":
+            # quick: one seeded state per configuration
+            return [hs[["tree/wsgi", "tree/aio@/dav/", "bare/wsgi@/dav/"].index(cfg.label) % 3]] if cfg.label in ("tree/wsgi", "tree/aio@/dav/", "bare/wsgi@/dav/") else hs[:1]
+        return hs
+
     def depth_of(cfg):
         if isinstance(cfg, e1common.StoreCfg):
             return (3, None) if tier == "quick" else (6, 6000)
@@ -39,6 +49,6 @@ def run(tier, workers=None):
         "histories": [[], [("put", "cal", "a.ics", "X")], [("put", "cal", "a.ics", "X"), ("put", "cal", "b.ics", "Z")]],
         "ops": [("put", "cal", "a.ics", "X2"), ("delete", "cal", "a.ics"), ("proppatch", "cal", "displayname", "d1"), ("post", "cal", "T")] + ([("mkcalendar", "c2"), ("put", "ab", "a.vcf", "K")] if tier == "thorough" else []),
     }
-    return e1common.run_configs("C01", tier, configs(tier), depth_of, workers=workers, assumptions=ASSUME + [
+    return e1common.run_configs("C01", tier, configs(tier), depth_of, workers=workers, seeds=seeds, assumptions=ASSUME + [
         "fault phase: at three states, every single placement of an ENOSPC failure on a mutating file-system call of PUT/DELETE/PROPPATCH/POST; a request that then fails must change nothing observable and must not wedge the collection",
     ], faults=faults)
